@@ -181,7 +181,7 @@ impl BlkCase {
                         return;
                     }
                     // registered in the blocked list, or submitted?
-                    let was_blocked = self.futs[i].label == "at-lock-blocked";
+                    let was_blocked = self.futs[i].label == "at-pushing";
                     self.futs[i].label = if was_blocked { "pending-blocked".into() } else { "pending-submitted".into() };
                     if was_blocked {
                         self.registered[i] = true;
@@ -218,6 +218,8 @@ impl BlkCase {
                             }
                         }
                         sched::STORE_SQ_TAIL => Some("at-st-tail"),
+                        // inside the blocked-list critical section (lock held, waker not yet pushed)
+                        sched::LOCKED => Some("at-pushing"),
                         _ => None,
                     };
                     if let Some(l) = label {
@@ -243,7 +245,10 @@ impl BlkCase {
                     return;
                 }
                 Status::Parked(kind, _) => {
+                    let pushing = self.futs.iter().any(|f| f.tid.is_some() && f.label == "at-pushing");
                     let label = match (kind, rw.phase) {
+                        // `has_blocked_futures()` spins on the list lock while a future is inside its push
+                        (sched::LOCK, 0) if pushing => Some("start".to_string()),
                         (sched::SYS, 0) => {
                             rw.phase = 1;
                             let n = simk::with_ring(self.rfd, |r, _| r.sq_pending());
@@ -431,6 +436,15 @@ impl Case for BlkCase {
             ["blk", "r"] => {
                 if self.rw.is_none() {
                     return vec!["bad-op".into()];
+                }
+                let pushing = self.futs.iter().any(|f| f.tid.is_some() && f.label == "at-pushing");
+                if pushing {
+                    match self.rw.as_ref().map(|r| r.label.as_str()) {
+                        Some("at-try-lock") => self.feats.push("wake-pass-try-lock-fails".into()),
+                        Some("at-lock2") => self.feats.push("merge-spins-on-list-lock".into()),
+                        Some("start") => self.feats.push("poll-start-spins-on-list-lock".into()),
+                        _ => {}
+                    }
                 }
                 self.advance_r();
                 let label = self.rw.as_ref().map(|r| r.label.clone()).unwrap_or_else(|| "idle".into());
